@@ -57,6 +57,8 @@ CORPUS = [
     # the same with a decode failure (process_blocks failure branch) and with a bad segment number
     ((1, 2, [0]), ["g:0:0", "g:0:1", "l:0", "a:0.0.0.1", "l:0", "s:0:0:C", "l:0", "g:1:2", "l:1", "s:1:0:C", "l:1"]),
     ((1, 2, []), ["g:5:0", "g:5:1", "u", "l:0", "g:0:2", "a:0.0.0.1", "l:1", "s:1:0:C", "l:1"]),
+    # seeded C46-e: two copies of share 0 and nothing else (k = 2): one block, the duplicate stays unused -> NotEnoughShares
+    ((2, 1, []), ["g:0:0", "l:0", "a:0.0.0.1,1.0.1.2", "l:0", "n", "l:0", "s:0:0:C", "l:0"]),
     # cancel of the only request of the active segment, bad segment number
     ((2, 1, []), ["g:0:0", "l:0", "c:0", "g:3:1", "u", "l:1", "c:0", "g:0:2", "a:0.0.0.1,1.1.0.2", "l:2", "l:2"]),
 ]
@@ -224,6 +226,7 @@ def run(ctx):
             impl.append(";".join(digs))
             lines.append(node_line(p, toks))
             ctx.case(("N", repr(p), tuple(toks)))
+            node_monitor(ctx, p, toks, info)
             if info["queued"] == 0:
                 lost_requests_check(ctx, ncases[-1], toks, info)
             if info["waiting"] and (info["active"] is None or not info["active"][2]):
@@ -268,6 +271,9 @@ def run(ctx):
         late.append(fc.gen_late_error_scenario(None, canonical=True))      # corpus: minimised history
         for i in range(B(20, 350)):
             late.append(fc.gen_late_error_scenario(ctx.rng))
+    # ---- ShareFinder scripts: statement monitor only here (the model comparison runs in the C03 check)
+    if not ctx.replay:
+        fc.finder_family(ctx, B(150, 4000))
     # ---- Segmentation (one read) scripts: the real class with a fake node
     scases, simpl, slines = [], [], []
     if ctx.replay:
